@@ -100,6 +100,34 @@ fn jnumber(out: &mut String, n: &Number) {
     }
 }
 
+fn jspans(out: &mut String, r: lexpr::datum::Ref<'_>) {
+    let sp = r.span();
+    write!(out, "{{\"s\":[{},{}],\"e\":[{},{}]", sp.start().line(), sp.start().column(), sp.end().line(), sp.end().column()).unwrap();
+    if let Some(it) = r.list_iter() {
+        out.push_str(",\"list\":[");
+        let mut first = true;
+        let mut it = it;
+        loop {
+            match it.next() {
+                Some(e) => { if !first { out.push(','); } first = false; jspans(out, e); }
+                None => {
+                    // either exhausted or the dot marker before a tail
+                    if it.is_empty() { break; }
+                    if let Some(e) = it.next() { if !first { out.push(','); } first = false; out.push_str("{\"dot\":"); jspans(out, e); out.push('}'); }
+                    break;
+                }
+            }
+        }
+        out.push(']');
+    } else if let Some(it) = r.vector_iter() {
+        out.push_str(",\"vec\":[");
+        let mut first = true;
+        for e in it { if !first { out.push(','); } first = false; jspans(out, e); }
+        out.push(']');
+    }
+    out.push('}');
+}
+
 fn jerr(out: &mut String, e: &lexpr::parse::Error) {
     let cat = match e.classify() {
         lexpr::parse::error::Category::Io => "io",
@@ -126,19 +154,37 @@ impl std::io::Read for FaultReader {
 }
 
 fn run_parser<'a, R: lexpr::parse::Read<'a>>(mut p: Parser<R>, api: &str, out: &mut String) {
+    if api == "spans" {
+        out.push_str("{\"spans\":[");
+        let mut n = 0;
+        loop {
+            match p.next_datum() {
+                Ok(Some(d)) => {
+                    if n > 0 { out.push(','); }
+                    n += 1;
+                    jspans(out, d.as_ref());
+                }
+                Ok(None) => break,
+                Err(e) => { if n > 0 { out.push(','); } jerr(out, &e); break; }
+            }
+        }
+        out.push_str("]}");
+        return;
+    }
     if api == "valuec" || api == "datumc" {
         // keep calling the same parser after errors (call histories); report counts only
         let (mut oks, mut errs, mut ended) = (0, 0, false);
         let mut last = String::new();
+        let mut trace = String::new();
         for _ in 0..400 {
             let r = if api == "valuec" { p.next_value() } else { p.next_datum().map(|o| o.map(Value::from)) };
             match r {
-                Ok(Some(_)) => oks += 1,
+                Ok(Some(_)) => { oks += 1; trace.push('o'); }
                 Ok(None) => { ended = true; break; }
-                Err(e) => { errs += 1; last = e.to_string(); }
+                Err(e) => { errs += 1; trace.push('e'); last = e.to_string(); }
             }
         }
-        write!(out, "{{\"oks\":{},\"errs\":{},\"ended\":{},\"last_err\":\"{}\"}}", oks, errs, ended, last).unwrap();
+        write!(out, "{{\"oks\":{},\"errs\":{},\"ended\":{},\"trace\":\"{}\",\"last_err\":\"{}\"}}", oks, errs, ended, trace, last).unwrap();
         return;
     }
     out.push_str("{\"items\":[");
